@@ -171,6 +171,38 @@ Definition audit : list (site * verdict) := [
   (Site "name_check_visitor.py" "NameCheckVisitor._check_function_unused_vars" "call:_all_names_unused" "all_unused_nodes" 1, VEscape "_all_names_unused" KMember)
 ]%list.
 
+(* ------------------------------------------------------------------ *)
+(* phase 2: the sites outside the seven anchored files (every other non-test module).
+   format_strings.py (`", ".join(keys_left)`) and typeshed.py (TypedDict fields iterated in
+   set order) were found here; after their repairs (repo_fixes/C10-format-missing-keys-order,
+   C10-typeshed-typeddict-order) those sites are gone or generic and are NOT listed. *)
+Definition audit_extra : list (site * verdict) := [
+  (* min(boolabilities, key=lambda b: b.value): enum values are distinct *)
+  (Site "boolability.py" "get_boolability" "call:min" "boolabilities" 0, VKind KMin);
+  (* qcore.override(self, "_recursive_stack", set()): becomes an attribute used by `in` / add *)
+  (Site "find_unused.py" "UnusedObjectFinder._has_import_star_usage" "call:override" "set()" 0, VStored);
+  (* _UsageKind.aggregate(...) keeps the strongest usage kind: commutative *)
+  (Site "find_unused.py" "UnusedObjectFinder._has_import_star_usage_inner" "comp:GeneratorExp/aggregate" "import_stars" 0, VFoldComm);
+  (* one option instance per disabled error code; every lookup is per option class *)
+  (Site "options.py" "_parse_config_section" "for" "error_codes_to_disable" 0, VKeyedOnly);
+  (Site "options.py" "parse_config_file" "kwarg:seen_paths" "{path, *seen_paths}" 0, VEscape "parse_config_file" KMember);
+  (* patma: sets of KVPairs returned in a tuple and merged with |= ; consumed by `in` *)
+  (Site "patma.py" "get_value_from_kv_pairs" "stored:Tuple" "new_optional_pairs" 0, VStored);
+  (Site "patma.py" "get_value_from_kv_pairs" "stored:Tuple" "set()" 0, VStored);
+  (Site "patma.py" "get_value_from_kv_pairs" "stored:Tuple" "set()" 1, VStored);
+  (Site "patma.py" "get_value_from_kv_pairs" "stored:Tuple" "set()" 2, VStored);
+  (Site "patma.py" "PatmaVisitor.visit_MatchMapping" "call:get_value_from_kv_pairs" "optional_pairs" 0, VEscape "get_value_from_kv_pairs" KMember);
+  (Site "patma.py" "PatmaVisitor.visit_MatchMapping" "call:get_value_from_kv_pairs" "removed_pairs" 0, VEscape "get_value_from_kv_pairs" KMember);
+  (Site "patma.py" "get_value_from_kv_pairs" "stored:Tuple" "new_optional_pairs" 1, VStored);
+  (Site "patma.py" "get_value_from_kv_pairs" "stored:Tuple" "new_removed_pairs" 0, VStored);
+  (* rest_sets = [set(mro) ...]: a list of sets used by `in` *)
+  (Site "suggested_type.py" "get_shared_type" "elt:ListComp" "set(mro)" 0, VStored);
+  (* {key: unite_values(...) for key in keys}: a VarMap, used by key *)
+  (Site "type_evaluation.py" "unite_varmaps" "comp:DictComp" "keys" 0, VKeyedOnly);
+  (* set.intersection( *[set(m) for m in varmaps] ): a set again *)
+  (Site "type_evaluation.py" "unite_varmaps" "elt:ListComp/star>intersection" "set(m)" 0, VKind KToSet)
+]%list.
+
 Fixpoint lookup (s : site) (t : list (site * verdict)) : option verdict :=
   match t with
   | [] => None
@@ -180,7 +212,7 @@ Fixpoint lookup (s : site) (t : list (site * verdict)) : option verdict :=
 Definition verdict_of (s : site) : option verdict :=
   match generic (s_ctx s) with
   | Some v => Some v
-  | None => lookup s audit
+  | None => match lookup s audit with Some v => Some v | None => lookup s audit_extra end
   end.
 
 (* a verdict is acceptable unless it names an order-exposing consumer *)
@@ -207,4 +239,4 @@ Definition is_residual (s : site) : bool :=
 
 (* no stale audit entries: every audited site still exists in the inventory *)
 Definition audit_live (inventory : list site) : bool :=
-  forallb (fun e => existsb (site_eqb (fst e)) inventory) audit.
+  forallb (fun e => existsb (site_eqb (fst e)) inventory) (audit ++ audit_extra)%list.
